@@ -41,5 +41,38 @@ let () = iter_lines (fun line ->
     let i = show (Vp8Spec.decode_go data) in
     let s = show (Vp8Spec.decode data) in
     Printf.printf "I %s S %s\n" i s
+  | "xform" :: kind :: predhex :: coeffs ->
+    (* prediction (16 samples) + inverse transform of 16 coefficients, clamped *)
+    let pred = Stdlib.List.map z_of_int (bytes_of_hex predhex) in
+    let c = Stdlib.List.map z_of_string coeffs in
+    let out l = hex_of_bytes (Stdlib.List.map int_of_z (Vp8Kernels.add_residual pred l)) in
+    let i = match kind with
+      | "dc" -> Vp8Kernels.go_transform_dc c
+      | "ac3" -> Vp8Kernels.go_transform_ac3 c
+      | _ -> Vp8Kernels.go_transform_one c in
+    Printf.printf "I %s S %s\n" (out i) (out (Vp8Kernels.idct c))
+  | "wht" :: _kind :: coeffs ->
+    let c = Stdlib.List.map z_of_string coeffs in
+    let out l = String.concat "," (Stdlib.List.map string_of_z l) in
+    Printf.printf "I %s S %s\n" (out (Vp8Kernels.go_wht c)) (out (Vp8Kernels.iwht c))
+  | ["pred4"; _kind; mode; edgehex] ->
+    let e = Stdlib.List.map z_of_int (bytes_of_hex edgehex) in
+    let r = Vp8Kernels.pred4 (z_of_string mode) e in
+    let o = hex_of_bytes (Stdlib.List.map int_of_z (Stdlib.List.concat r)) in
+    Printf.printf "I %s S %s\n" o o
+  | ["predblk"; n; mode; ha; hl; abovehex; lefthex; corner] ->
+    let n = int_of_string n in
+    let r = Vp8Kernels.pred_block (z_of_int n) (z_of_int (if n = 16 then 4 else 3)) (z_of_string mode)
+        (ha = "1") (hl = "1") (Stdlib.List.map z_of_int (bytes_of_hex abovehex))
+        (Stdlib.List.map z_of_int (bytes_of_hex lefthex)) (z_of_string corner) in
+    let o = hex_of_bytes (Stdlib.List.map int_of_z (Stdlib.List.concat r)) in
+    Printf.printf "I %s S %s\n" o o
+  | ["ups"; _kind; ty; by; tu; tv; bu; bv] ->
+    let l h = Stdlib.List.map z_of_int (bytes_of_hex h) in
+    let boty = if by = "-" then None else Some (l by) in
+    let (t, b) = Vp8Upsample.upsample_pair (l ty) boty (l tu) (l tv) (l bu) (l bv) in
+    let o x = hex_of_bytes (Stdlib.List.map int_of_z x) in
+    let r = o t ^ "," ^ (match b with Some x -> o x | None -> "-") in
+    Printf.printf "I %s S %s\n" r r
   | [] -> ()
   | _ -> print_endline "ERR bad-line")
